@@ -33,7 +33,7 @@ def string_program(rng, valid=True):
     for _ in range(rng.choice([2, 3, 5, 8, 14])):
         r, q, t = rng.randrange(4), rng.randrange(4), rng.randrange(4)
         op = rng.choice(["cz", "cl", "cs", "ca", "ca", "cn", "ci", "il", "ts", "ae", "as", "as", "pe", "ps", "ie", "ie", "ir", "ir",
-                         "ea", "ef", "er", "er", "sw", "ix"])
+                         "ea", "ef", "er", "er", "sw", "ix", "ob", "ob", "ob"])
         if op in ("cz", "cl", "cs", "ts"):
             bs, h = rand_text_hex(rng)
             parts.append("%s %d %s" % (op, r, h))
@@ -91,6 +91,8 @@ def string_program(rng, valid=True):
         elif op == "sw":
             parts.append("sw %d %d" % (r, q))
             size[r], size[q] = size[q], size[r]
+        elif op == "ob":
+            parts.append("ob %d" % r)        # to_string in mid-program: a cached text must not survive later edits
         elif op == "ix":
             i = rng.randrange(size[r] + 1)
             parts.append("ix %d %d %s" % (r, i, tg.fmt_el(el())))
